@@ -67,6 +67,7 @@ type c11Acct struct {
 }
 
 type c11Run struct {
+	forceFrom               *c11Acct // the next transfer moves this account's shares
 	spec                    c11Spec
 	c                       *chain.Chain
 	rng                     *rand.Rand
@@ -327,6 +328,16 @@ func (r *c11Run) redelegate(a *c11Acct, v sdk.ValAddress) {
 	r.logf("%s redelegateV2 %s->%s %s -> %s", a.label, v, dst, amt, short(res.VmError()))
 	if !res.Failed() {
 		r.res.Count("redelegations_ok", 1)
+		if r.rng.IntN(2) == 0 {
+			// while the redelegation into dst has not matured: the owner approves a spender for everything
+			// it has there, and the spender tries to move it
+			sp := r.accts[r.rng.IntN(len(r.accts))]
+			sh := r.shares(r.c.Ctx, a.addr, dst).TruncateInt()
+			if ar := r.call(a, stakingPack("approveShares", dst.String(), sp.addr, sh.BigInt())); !ar.Failed() {
+				r.forceFrom = a
+				r.transfer(sp, dst, true)
+			}
+		}
 	}
 }
 
@@ -359,6 +370,9 @@ func (r *c11Run) transfer(caller *c11Acct, v sdk.ValAddress, fromVariant bool) {
 	if fromVariant {
 		from = r.accts[r.rng.IntN(len(r.accts))]
 	}
+	if r.forceFrom != nil {
+		from, r.forceFrom = r.forceFrom, nil
+	}
 	to := r.accts[r.rng.IntN(len(r.accts))]
 	if r.rng.IntN(5) == 0 {
 		to = from // sender == recipient
@@ -385,6 +399,7 @@ func (r *c11Run) transfer(caller *c11Acct, v sdk.ValAddress, fromVariant bool) {
 	ts := r.shares(ctx, to.addr, v)
 	allowance := r.c.App.StakingKeeper.GetAllowance(ctx, v, from.addr.Bytes(), caller.addr.Bytes())
 	fxFrom, fxTo := r.fx(ctx, from.addr), r.fx(ctx, to.addr)
+	incoming, _ := r.c.App.StakingKeeper.HasReceivingRedelegation(ctx, from.addr.Bytes(), v)
 
 	// twin branch: the parties call plain withdraw at the same position
 	twin := r.c.Branch()
@@ -421,6 +436,9 @@ func (r *c11Run) transfer(caller *c11Acct, v sdk.ValAddress, fromVariant bool) {
 	val2, _ := r.c.App.StakingKeeper.GetValidator(ctx, v)
 	s := sdkmath.LegacyNewDecFromInt(amt)
 	if !ok {
+		if incoming {
+			r.res.Count("transfers_refused_for_incoming_redelegation/"+map[bool]string{true: "transferFromShares", false: "transferShares"}[fromVariant && caller.addr != from.addr], 1)
+		}
 		if !fs2.Equal(fs) || !ts2.Equal(ts) {
 			r.res.Violate("C11/failed-transfer-moved-shares", "failed transfer changed shares: from %s->%s to %s->%s", fs, fs2, ts, ts2)
 		}
@@ -433,6 +451,10 @@ func (r *c11Run) transfer(caller *c11Acct, v sdk.ValAddress, fromVariant bool) {
 	}
 	r.transfers++
 	r.res.Count("transfers_ok", 1)
+	if incoming {
+		r.res.Violate("C11/transfer-while-incoming-redelegation/"+map[bool]string{true: "transferFromShares", false: "transferShares"}[fromVariant],
+			"%s moved %s shares of %s at %s although a redelegation into that delegation has not matured", caller.label, amt, from.label, v)
+	}
 	if from.addr == to.addr {
 		r.selfT++
 		r.res.Count("self_transfers", 1)
